@@ -404,7 +404,7 @@ Fixpoint new_deliveries (pl : policy) (n : nat) (d : list (Z * list entry)) : li
 
 Definition seq_eval (d : Z) (q : seqst) : seqst :=
   let s := st q in
-  if negb (started s) then emit [3; idx q; -1] q
+  if negb (started s) then emit [13; idx q] q
   else
     let t := now s + Z.max 1 d in
     let s1 := do_step s (LCBegin t) in
@@ -420,7 +420,7 @@ Definition sender_valid (s : state) : Z :=
 
 Definition seq_stop (q : seqst) : seqst :=
   let s := st q in
-  if negb (started s) then emit [4; idx q; -1] q
+  if negb (started s) then emit [14; idx q] q
   else
     let s1 := run_cons 8 (do_step s LCStop) in      (* begin_close, policy stop, notify_all *)
     let q1 := settle (with_st s1 q) in              (* the blocked sender returns false and leaves *)
@@ -429,7 +429,7 @@ Definition seq_stop (q : seqst) : seqst :=
 
 Definition seq_start (q : seqst) : seqst :=
   let s := st q in
-  if started s then emit [5; idx q; -1] q
+  if started s then emit [15; idx q] q
   else
     let s1 := do_step s LCStart in
     emit [6; idx q; 0; obs_pending s1; b2z (flag s1); sender_valid s1] (with_st s1 q).
